@@ -1,3 +1,5 @@
 //! Facade for the area ReconfUnits (what the running bgp-tcp-in, file-out,
 //! mrt-file-in, filter and null-out components do with a `Reconfigure`).
 pub use crate::comms::verif_hooks_reconfunits::*;
+pub use crate::targets::verif_hooks_reconfunits::null_target;
+pub use crate::units::verif_filter_reconfunits as filter;
